@@ -1,9 +1,11 @@
 //! oq3v: conformance harness binding the TLA+ specifications under /verif/spec to the real
 //! openqasm3_parser crates.  It renders, drives, projects and compares; expected values and
 //! allowed sets come from TLC.
+mod astproj;
 mod dbg;
 mod gating;
 mod gen;
+mod gram;
 mod lex;
 mod lit;
 mod parse;
@@ -30,6 +32,8 @@ fn main() {
         "parse-tokens" => parse::tokens(rest),
         "check-text" => parse::check_one(rest),
         "events" => parse::dump_events(rest),
+        "gram-cases" => gram::cases(rest),
+        "seq-cases" => gram::seq_cases(rest),
         "lex-cases" => lex::cases(rest),
         "lex-exhaustive" => lex::exhaustive(rest),
         "lex-record" => lex::record(rest),
